@@ -562,6 +562,12 @@ func CheckC14(r *Report) {
 			r.NotExhaustive("vacuous exploration (no pool interaction observed)")
 		}
 	}
+	// (8) cold-start concurrency: every explored execution is the FIRST activity of its own fresh process
+	if err == nil {
+		if cc := coldConcurrent(r, bin, thorough); cc != nil {
+			phase["cold-start concurrency (one fresh process per execution, fine-grained points)"] = cc
+		}
+	}
 	// (7) cold vs warm differential in a fresh process (empty history vs long history; ascending vs descending tables)
 	if cw := runC14Cold(r); cw != nil {
 		phase["cold vs warm differential (fresh process)"] = cw
@@ -663,6 +669,37 @@ func init() {
 			return err.Error()
 		}
 		rc := exec.Command(bin, "replay", argStr(c, "scenario"), argStr(c, "choices"))
+		if cold, _ := c.Args["cold"].(bool); cold {
+			// cold-start cases: the execution must be the first activity of the process
+			rc = exec.Command(bin, "coldrun", argStr(c, "scenario"), argStr(c, "choices"))
+			rc.Env = append(os.Environ(), "VERIF_FINE=1", "GOMAXPROCS=1")
+			b, e := rc.Output()
+			fmt.Print(string(b))
+			var o coldRunOut
+			if e != nil || json.Unmarshal(b, &o) != nil {
+				return "cold replay could not be run"
+			}
+			exp, _ := exec.Command(bin, "bodies").Output()
+			var bodies []struct {
+				Index    int    `json:"index"`
+				Isolated string `json:"isolated"`
+			}
+			json.Unmarshal(exp, &bodies)
+			if len(o.Panics) > 0 || o.Deadlock || o.KeepBad != "" {
+				return fmt.Sprint("cold-start execution misbehaves: ", o.Panics, o.Deadlock, o.KeepBad)
+			}
+			ti := 0
+			for _, t := range strings.Split(argStr(c, "scenario"), "|") {
+				for ci, cs := range strings.Split(t, ",") {
+					bi, _ := strconv.Atoi(cs)
+					if ti < len(o.Results) && ci < len(o.Results[ti]) && bi < len(bodies) && o.Results[ti][ci] != bodies[bi].Isolated {
+						return fmt.Sprintf("thread %d call %d returned %q, alone %q", ti, ci, o.Results[ti][ci], bodies[bi].Isolated)
+					}
+				}
+				ti++
+			}
+			return ""
+		}
 		if fg, _ := c.Args["fine_grained"].(bool); fg {
 			rc.Env = append(os.Environ(), "VERIF_FINE=1")
 		}
@@ -677,7 +714,38 @@ func init() {
 		return ""
 	}
 	replayers["race"] = func(c *Case) string {
-		return "race reports are re-produced by re-running the check (./run.sh C14 quick); they depend on a free-running schedule"
+		// re-run the free-running -race pass (it depends on a free-running schedule: a clean run here does not
+		// prove absence, a report is a reproduction)
+		tmp, err := os.MkdirTemp("", "verif-c14-")
+		if err != nil {
+			return ""
+		}
+		defer os.RemoveAll(tmp)
+		raceBin := filepath.Join(tmp, "racepass")
+		rargs := []string{"build", "-race", "-o", raceBin}
+		if mf := os.Getenv("VERIF_MODFILE"); mf != "" {
+			rargs = append(rargs, "-modfile="+mf)
+		}
+		cmd := exec.Command("go", append(rargs, "./cmd/racepass")...)
+		cmd.Dir = filepath.Join(VerifDir, "mc")
+		cmd.Env = goEnv()
+		if out, berr := cmd.CombinedOutput(); berr != nil {
+			fmt.Println("race pass not built:", berr, string(out))
+			return ""
+		}
+		for attempt := 0; attempt < 3; attempt++ {
+			rc := exec.Command(raceBin, "20000")
+			rc.Env = append(os.Environ(), "GORACE=halt_on_error=1 exitcode=66")
+			out, _ := rc.CombinedOutput()
+			txt := string(out)
+			if strings.Contains(txt, "WARNING: DATA RACE") {
+				return "data race reported again: " + raceSite(txt)
+			}
+			if strings.Contains(txt, "RACEPASS-VIOLATION") {
+				return "free-running pass reports again: " + lastLine(txt)
+			}
+		}
+		return ""
 	}
 }
 
@@ -699,4 +767,169 @@ func Warm() {
 		fmt.Println("warm: race build:", err, string(out))
 	}
 	fmt.Println("warm ok")
+}
+
+type coldRunOut struct {
+	Decisions []struct {
+		N int  `json:"n"`
+		C int  `json:"c"`
+		S bool `json:"s"`
+		P bool `json:"p"`
+	} `json:"decisions"`
+	Results  [][]string `json:"results"`
+	Panics   []string   `json:"panics"`
+	KeepBad  string     `json:"keep_bad"`
+	Deadlock bool       `json:"deadlock"`
+	Diverged bool       `json:"diverged"`
+	Capped   bool       `json:"capped"`
+}
+
+// coldConcurrent explores schedules of 2-thread scenarios whose every execution runs as the first activity of a
+// fresh process (lazily initialised state is cold), with fine-grained scheduling points, preemption-bounded.
+// Stateless DFS across processes: run(prefix) = spawn `sched coldrun <scenario> <prefix>`.
+func coldConcurrent(r *Report, bin string, thorough bool) map[string]any {
+	type body struct {
+		Index    int    `json:"index"`
+		Name     string `json:"name"`
+		Isolated string `json:"isolated"`
+	}
+	out, err := exec.Command(bin, "bodies").Output()
+	var bodies []body
+	if err != nil || json.Unmarshal(out, &bodies) != nil {
+		r.NotExhaustive("cold-start concurrency: body list unavailable")
+		return nil
+	}
+	var menu []int
+	for _, b := range bodies {
+		for _, want := range []string{"v2.shared.Vector+scores", "v3.1.Parse+Vector+scores", "v4.Parse+Vector+Score", "shared.v3.1+v4.Vector+scores", "scores of other objects built by Set", "Rating sequences A", "v2.Parse(14)", "v2.Parse(6)"} {
+			if strings.HasPrefix(b.Name, want) {
+				menu = append(menu, b.Index)
+			}
+		}
+	}
+	bound := 1
+	if thorough {
+		bound = 2
+	}
+	var scenarios []string
+	for _, p := range multisets(menu, 2) {
+		scenarios = append(scenarios, scnOf([]int{p[0]}, []int{p[1]}))
+	}
+	type item struct {
+		scn    string
+		prefix []int
+	}
+	var mu sync.Mutex
+	var execs, points, viol, capped int64
+	queue := make(chan item, 1<<16)
+	var pending sync.WaitGroup
+	cap := int64(40000)
+	if thorough {
+		cap = 400000
+	}
+	runOne := func(it item) {
+		defer pending.Done()
+		mu.Lock()
+		if execs >= cap || r.TooMany() {
+			capped++
+			mu.Unlock()
+			return
+		}
+		execs++
+		mu.Unlock()
+		ch := make([]string, len(it.prefix))
+		for i, c := range it.prefix {
+			ch[i] = strconv.Itoa(c)
+		}
+		cmd := exec.Command(bin, "coldrun", it.scn, strings.Join(ch, ","))
+		cmd.Env = append(os.Environ(), "GOMAXPROCS=1", "VERIF_FINE=1")
+		b, err := cmd.Output()
+		var o coldRunOut
+		if err != nil || json.Unmarshal(b, &o) != nil {
+			r.Note("cold run failed for %s [%s]: %v", it.scn, strings.Join(ch, ","), err)
+			return
+		}
+		mu.Lock()
+		points += int64(len(o.Decisions))
+		mu.Unlock()
+		// oracle
+		what := ""
+		key := ""
+		switch {
+		case o.Diverged:
+			// a divergence here means the cold process behaved differently for the same prefix: nondeterminism; not judged
+			return
+		case o.Deadlock:
+			key, what = "deadlock@cold-start", "every live thread is blocked"
+		case len(o.Panics) > 0:
+			key, what = "panic@cold-start", strings.Join(o.Panics, "; ")
+		case o.KeepBad != "":
+			key, what = "returned-value-changed@cold-start", o.KeepBad
+		default:
+			ti := 0
+			for _, t := range strings.Split(it.scn, "|") {
+				for ci, c := range strings.Split(t, ",") {
+					bi, _ := strconv.Atoi(c)
+					if ti < len(o.Results) && ci < len(o.Results[ti]) && o.Results[ti][ci] != bodies[bi].Isolated {
+						key = "result-depends-on-schedule@cold-start/" + bodies[bi].Name
+						what = fmt.Sprintf("thread %d call %d (%s) returned %q when both threads make their first calls concurrently in a fresh process; alone it returns %q", ti, ci, bodies[bi].Name, o.Results[ti][ci], bodies[bi].Isolated)
+					}
+				}
+				ti++
+			}
+		}
+		if key != "" {
+			mu.Lock()
+			viol++
+			mu.Unlock()
+			r.Violation(Case{Kind: "schedule", Key: key, Expected: "each call returns what it returns alone", Observed: what,
+				Args: map[string]any{"scenario": it.scn, "choices": strings.Join(ch, ","), "fine_grained": true, "cold": true}}, nil)
+		}
+		// children
+		pre := 0
+		for i := 0; i < len(o.Decisions); i++ {
+			d := o.Decisions[i]
+			if i >= len(it.prefix) {
+				for alt := 1; alt < d.N; alt++ {
+					c := pre
+					if d.S && d.P {
+						c++
+					}
+					if c > bound {
+						continue
+					}
+					np := make([]int, i+1)
+					for k := 0; k < i; k++ {
+						np[k] = o.Decisions[k].C
+					}
+					np[i] = alt
+					pending.Add(1)
+					queue <- item{it.scn, np}
+				}
+			}
+			if d.S && d.P && d.C != 0 {
+				pre++
+			}
+		}
+	}
+	for w := 0; w < 16; w++ {
+		go func() {
+			for it := range queue {
+				runOne(it)
+			}
+		}()
+	}
+	for _, s := range scenarios {
+		pending.Add(1)
+		queue <- item{s, nil}
+	}
+	pending.Wait()
+	close(queue)
+	if capped > 0 {
+		r.NotExhaustive(fmt.Sprintf("cold-start concurrency: execution cap %d reached, %d subtrees not explored", cap, capped))
+	}
+	r.States.Add(execs)
+	r.Traces.Add(execs)
+	r.Transitions.Add(points)
+	return map[string]any{"scenarios": len(scenarios), "executions_each_in_its_own_fresh_process": execs, "decisions": points, "preemption_bound": bound, "violations": viol}
 }
